@@ -212,6 +212,11 @@ def call_native(eng, obj, args, kwargs, st):
                 except Exception as e:  # noqa
                     return err(type(e).__name__, str(e), snap)
         return eng.call_repo_function(obj, args, kwargs, st)
+    if obj is getattr(ast, "Index", None):
+        # Python >= 3.9: ast.Index(value) simply returns its value
+        if "value" in kwargs or args:
+            return ok(kwargs.get("value", args[0] if args else None), st)
+        return err("TypeError", "Index.__new__() missing 1 required positional argument: 'value'", st)
     if isinstance(obj, type) and issubclass(obj, ast.AST):
         o = HObj("ast." + obj.__name__)
         fields = list(getattr(obj, "_fields", ()))
@@ -1152,6 +1157,12 @@ def str_method(eng, recv, name, args, kwargs, st):
             raise Unsupported("startswith with bounds")
         (a,) = args
         alts = list(a) if isinstance(a, tuple) else [a]
+        pre = smt.literal_prefix(s)
+        if name == "startswith" and pre is not None and all(isinstance(x, str) for x in alts):
+            if any(pre.startswith(x) for x in alts):
+                return ok(True, st)
+            if all(len(x) <= len(pre) or not x.startswith(pre) for x in alts):
+                return ok(False, st)  # every alternative already disagrees with the literal prefix
         parts = []
         for x in alts:
             if pytype_name(x) != "str":
@@ -1178,6 +1189,11 @@ def str_method(eng, recv, name, args, kwargs, st):
         start = args[1] if len(args) > 1 else 0
         if len(args) > 2:
             raise Unsupported("find with end")
+        pre = smt.literal_prefix(s)
+        if pre is not None and isinstance(sub, str) and isinstance(start, int) and not isinstance(start, bool) and 0 <= start:
+            k = pre.find(sub, start)
+            if k >= 0:
+                return ok(k, st)  # the first occurrence lies inside the literal prefix: independent of the symbolic rest
         n = z3.Length(s)
         stt = eng._num(start)
         stt = z3.If(stt < 0, z3.If(stt + n < 0, z3.IntVal(0), stt + n), stt)
